@@ -16,6 +16,8 @@
 (* make the proxy hand to its transport.  Only what the property's         *)
 (* observable interface shows is state: session life cycle, registered     *)
 (* regions, which association holds which session, circuit per region.    *)
+(* Announcements name a region handle as well as an address; the handle    *)
+(* never takes part in routing (see Announce).                             *)
 (* The far->near map of the code is deliberately absent: an open circuit   *)
 (* implies a learned far address, every other consequence of learning is   *)
 (* a discard.                                                              *)
@@ -48,7 +50,11 @@ SocksStrip(b) ==
 CONSTANTS NA,     \* associations (one viewer each)
           NS,     \* sessions that can log in
           NH,     \* simulators
-          Dyn     \* TRUE: regions other than the login region can be registered later
+          Dyn,    \* TRUE: regions can be announced after login
+          NG,     \* region handles 1..NG (an announcement names a handle, or none: 0)
+          GMode   \* which announcements the bounded model explores: "addr" every address has its own
+                  \* handle (handle = address number, no region ever moves); "any" every handle 1..NG at
+                  \* every address; "any0" also announcements without a handle
 
 Assoc == 1..NA
 Sess == 1..NS
@@ -56,18 +62,23 @@ Sims == 1..NH
 Unk == 0                         \* a far host that is no region of any session
 NoSess == 0
 LoginSim(s) == ((s - 1) % NH) + 1
-Extra(s) == IF Dyn THEN Sims \ {LoginSim(s)} ELSE {}
+Handles == 0..NG                 \* 0: the announcement carried no handle
+LoginHandle(s) == IF GMode = "addr" THEN LoginSim(s) ELSE 1
+AnnHandles(h) == IF GMode = "addr" THEN {h} ELSE IF GMode = "any0" THEN Handles ELSE 1..NG
 
 VARIABLES st,     \* [Sess -> {"absent","pending","claimed"}]
           regs,   \* [Sess -> SUBSET Sims]          registered regions (circuit addresses)
           sess,   \* [Assoc -> Sess \cup {NoSess}]  session held by the association
           circ,   \* [Sess -> [Sims -> {"none","open","dead"}]]
+          hnd,    \* [Sess -> [Sims -> Handles]]  handle last announced for a registered address
+                  \* (what region an address IS plays no part in routing: never compared with the code,
+                  \* it only tells the announcement histories apart and enables the choice in Announce)
           ev,     \* the last event (ghost)
           out     \* what the last event must hand to the transport (ghost)
 
 pvars == <<st, regs, sess, circ>>
-MView == pvars
-vars == <<st, regs, sess, circ, ev, out>>
+MView == <<st, regs, sess, circ, hnd>>
+vars == <<st, regs, sess, circ, hnd, ev, out>>
 
 \* A datagram handed to the transport of association via: to > 0 simulator `to`, raw; to < 0 the
 \* viewer of association -to, prefixed with the SOCKS header naming simulator hdr.
@@ -94,21 +105,38 @@ Init == /\ st = [s \in Sess |-> "absent"]
         /\ regs = [s \in Sess |-> {}]
         /\ sess = [a \in Assoc |-> NoSess]
         /\ circ = [s \in Sess |-> [h \in Sims |-> "none"]]
+        /\ hnd = [s \in Sess |-> [h \in Sims |-> 0]]
         /\ ev = Ev("Init", 0, 0, "", 0, FALSE)
         /\ out = NoOut
 
-(* environment: the login HTTP response was intercepted / a new region was announced *)
+(* environment: the login HTTP response was intercepted / a region was announced (EnableSimulator, *)
+(* TeleportFinish, CrossedRegion, EstablishAgentCommunication on the event queue)                 *)
 Login(s) == /\ st[s] = "absent"
             /\ st' = [st EXCEPT ![s] = "pending"]
             /\ regs' = [regs EXCEPT ![s] = {LoginSim(s)}]
+            /\ hnd' = [hnd EXCEPT ![s][LoginSim(s)] = LoginHandle(s)]
             /\ ev' = Ev("Login", 0, 0, "", s, FALSE) /\ out' = NoOut
             /\ UNCHANGED <<sess, circ>>
-AddRegion(s, h) == /\ st[s] # "absent" /\ h \in Extra(s) \ regs[s]
-                   /\ regs' = [regs EXCEPT ![s] = @ \cup {h}]
-                   /\ ev' = Ev("Reg", 0, h, "", s, FALSE) /\ out' = NoOut
-                   /\ UNCHANGED <<st, sess, circ>>
+\* Region handle g (0: none) is announced at simulator address h.  Routing is by address: h becomes
+\* (or stays) a registered region and NOTHING else changes -- whether g is new, is h's handle already,
+\* or is the handle of a region registered at ANOTHER address (the region "moved") whose circuit may be
+\* open or dead.  In that last case the property leaves one choice open (ch, bound to what is observed):
+\* the implementation may forget the region(s) it knew under g at the other address(es), which then
+\* have no circuit any more.  It may NOT carry their circuit over to h: a circuit is to one address.
+\* The event record carries g in field a.
+Moved(s, g, h) == IF g = 0 THEN {} ELSE {x \in regs[s] \ {h} : hnd[s][x] = g}
+Announce(s, g, h, ch) ==
+    /\ Dyn /\ st[s] # "absent"
+    /\ ch => (h \notin regs[s] /\ Moved(s, g, h) # {})
+    /\ LET old == IF ch THEN Moved(s, g, h) ELSE {}
+       IN /\ regs' = [regs EXCEPT ![s] = (@ \ old) \cup {h}]
+          /\ circ' = [circ EXCEPT ![s] = [x \in Sims |-> IF x \in old THEN "none" ELSE @[x]]]
+          /\ hnd' = [hnd EXCEPT ![s] = [x \in Sims |-> IF x = h THEN (IF g = 0 THEN @[x] ELSE g)
+                                                      ELSE IF x \in old THEN 0 ELSE @[x]]]
+    /\ ev' = Ev("Reg", g, h, "", s, ch) /\ out' = NoOut
+    /\ UNCHANGED <<st, sess>>
 
-Discard == out' = NoOut /\ UNCHANGED pvars
+Discard == out' = NoOut /\ UNCHANGED <<pvars, hnd>>
 
 HasCircuit(a, h) == sess[a] # NoSess /\ h \in Sims /\ circ[sess[a]][h] # "none"
 IsOpen(a, h) == sess[a] # NoSess /\ h \in Sims /\ circ[sess[a]][h] = "open"
@@ -121,7 +149,7 @@ OnCircuit(a, h, k, dirn, ch) ==
     THEN /\ out' = [sends |-> <<IF dirn = "C" THEN ToSim(a, h) ELSE ToViewer(a, h)>>,
                     may |-> (circ[cs][h] = "dead" \/ k = "badbody" \/ (k = "banned" /\ dirn = "C"))]
          /\ circ' = IF k \in Kill /\ ch THEN [circ EXCEPT ![cs][h] = "dead"] ELSE circ
-         /\ UNCHANGED <<st, regs, sess>>
+         /\ UNCHANGED <<st, regs, sess, hnd>>
     ELSE Discard
 
 \* UseCircuitCode from the viewer, naming session s (NoSess: an ID no login produced)
@@ -131,7 +159,7 @@ UseCircuit(a, h, s, ch) ==
     IN IF cs = NoSess THEN Discard
        ELSE /\ sess' = [sess EXCEPT ![a] = cs]
             /\ st' = [st EXCEPT ![cs] = "claimed"]
-            /\ UNCHANGED regs
+            /\ UNCHANGED <<regs, hnd>>
             /\ IF h \in regs[cs]
                THEN /\ circ' = [circ EXCEPT ![cs][h] = "open"]
                     /\ out' = [sends |-> <<ToSim(a, h)>>, may |-> FALSE]
@@ -164,7 +192,7 @@ Far == Sims \cup {Unk}
 \* a viewer can also mis-address a datagram to a viewer's own address (0 - b: viewer of association b)
 CFar == Far \cup {0 - b : b \in Assoc}
 Next == \/ \E s \in Sess : Login(s)
-        \/ \E s \in Sess, h \in Sims : AddRegion(s, h)
+        \/ \E s \in Sess, h \in Sims, ch \in BOOLEAN : \E g \in AnnHandles(h) : Announce(s, g, h, ch)
         \/ \E a \in Assoc, h \in CFar, k \in CKinds \ {"ucc"}, ch \in BOOLEAN : Client(a, h, k, NoSess, ch)
         \/ \E a \in Assoc, h \in CFar, s \in Sess \cup {NoSess}, ch \in BOOLEAN : Client(a, h, "ucc", s, ch)
         \/ \E a \in Assoc, h \in Far, k \in HKinds \ {"ucc"}, ch \in BOOLEAN : Host(a, h, k, NoSess, ch)
@@ -176,6 +204,7 @@ TypeOK == /\ st \in [Sess -> {"absent", "pending", "claimed"}]
           /\ regs \in [Sess -> SUBSET Sims]
           /\ sess \in [Assoc -> Sess \cup {NoSess}]
           /\ circ \in [Sess -> [Sims -> {"none", "open", "dead"}]]
+          /\ hnd \in [Sess -> [Sims -> Handles]]
 
 \* a session is held by exactly one association from its claim on, by none before
 ClaimConsistent == /\ \A s \in Sess : (st[s] = "claimed") <=> (\E a \in Assoc : sess[a] = s)
@@ -227,8 +256,17 @@ OnlyNamedChanges == [][(ev'.n \in {"C", "H"} /\ ~IsViewerUCC /\ ~(ev'.k \in Kill
 \* simulator or for its simulator is delivered exactly once.  The specification has no memory of far
 \* hosts that own no circuit (no far->near map), so no history of discards can make it say otherwise;
 \* B2 "address churn" runs hold the real code to exactly this.
-OpenStaysDeliverable == [][~(ev'.n \in {"C", "H"} /\ ev'.k \in Kill /\ ev'.ch)
+OpenStaysDeliverable == [][~((ev'.n \in {"C", "H"} /\ ev'.k \in Kill /\ ev'.ch) \/ (ev'.n = "Reg" /\ ev'.ch))
                              => \A a \in Assoc, h \in Sims : IsOpen(a, h) => IsOpen(a, h)']_vars
+\* an announcement registers its address and touches no circuit, whatever handle it names; the one
+\* exception (ch) only ever REMOVES regions known under the same handle at other addresses, circuit included
+AnnounceRule == [][ev'.n = "Reg" =>
+                     /\ ev'.h \in regs'[ev'.s] /\ UNCHANGED <<st, sess>>
+                     /\ \A s \in Sess \ {ev'.s} : regs'[s] = regs[s] /\ circ'[s] = circ[s]
+                     /\ ~ev'.ch => (regs'[ev'.s] = regs[ev'.s] \cup {ev'.h} /\ circ' = circ)
+                     /\ \A x \in Sims : \/ circ'[ev'.s][x] = circ[ev'.s][x]
+                                          \/ (ev'.ch /\ x # ev'.h /\ hnd[ev'.s][x] = ev'.a /\ circ'[ev'.s][x] = "none"
+                                               /\ x \notin regs'[ev'.s])]_vars
 \* a claim happens only through a viewer's UseCircuitCode naming a pending session; with a registered
 \* region as destination it is not optional
 ClaimRule == [][(ev'.n = "C" /\ ev'.k = "ucc" /\ CanClaim(ev'.a, ev'.s) /\ ev'.h \in regs[ev'.s])
